@@ -32,6 +32,8 @@ def dm_jobs(rng, quick):
 
     def add(c, **kw):
         jobs.append(gen.enc("dm", c if isinstance(c, (bytes, list)) else onedim.U(c), (), **kw))
+    for c in gen.magic_contents(rng):
+        add(c)
     counts = set()
     for i, n in enumerate(NDATA):
         counts |= {n, (NDATA[i - 1] + 1) if i else 1}
